@@ -9,7 +9,7 @@ import warnings
 
 import numpy as np
 
-from ..core import (Ctx, Violation, SimCrash, HarnessError, rng_for, np_rng, canon,
+from ..core import (gc_point, Ctx, Violation, SimCrash, HarnessError, rng_for, np_rng, canon,
                     sha_array, close, bits_equal)
 from ..models import peaks as PK
 from ..models import stats as ST
@@ -17,6 +17,10 @@ from ..models import fdwra as FD
 from ..simfs import SimFS, Patched
 from ..snapshot import snap, diff as snapdiff
 from . import curves as CV
+
+ISOLATE = "chunk"   # result objects may keep process-global state (module-level caches, memoised helpers): every chunk of
+#                     consecutive runs starts in a forked child of a pristine process; a violation that needs the earlier
+#                     runs of its chunk is replayed (and minimised) together with them
 
 PROPS = ("C05", "C06", "C08", "C11", "C12", "C20")
 DISTS = ("normal", "lognormal")
@@ -161,6 +165,8 @@ def generate(seed, prop):
         w["fdwra"] = 5.0
     if prop == "C12":
         w["write_read"] = 3.0
+        if kind != "diffuse":
+            w["sibling"] = 1.2     # a second result built from the very same caller-owned meta dict / the container's sources
     if prop == "C20":
         w["plot"] = 3.0
         w["manual"] = 0.0
@@ -219,6 +225,15 @@ def generate(seed, prop):
             o["kwargs"] = o["kwargs"] if o["kwargs"] is not None else {}
             ops.append({"op": "update_peaks", "range": list(o["range"]), "rnum": o.get("rnum", "float"), "rtype": "tuple",
                         "kwargs": copy.deepcopy(o["kwargs"])})
+    if rng.random() < 0.3:
+        # the interpreter has a HISTORY: other results, on another frequency grid, were built, searched with some of the
+        # very ranges used below and thrown away before this world's objects exist (history independence: nothing
+        # of that may be visible - module-level caches, memoised helpers, recycled object identities)
+        rs = [o["range"] for o in ops if "range" in o and o["range"] != [None, None]]
+        g2 = CV.draw_grid(rng)
+        world["prehistory"] = {"grid": g2, "k": rng.randrange(1 << 30), "n": rng.randint(1, 4),
+                               "ranges": [list(r) for r in rng.sample(rs, min(len(rs), 3))] if rs else [],
+                               "rounds": rng.randint(1, 3)}
     if prop == "C12" and not any(o["op"] == "write_read" for o in ops):
         ops.append(draw_op(rng, "write_read", f, kind, curves, azimuths, fault_rate))
     if prop == "C20" and not any(o["op"] == "plot" for o in ops):
@@ -264,6 +279,10 @@ def draw_op(rng, name, f, kind, curves, azimuths, fault_rate=0.0):
     if name == "update_source":
         return {"op": name, "az": rng.randrange(len(curves)), "range": draw_range(rng, f), "kwargs": draw_kwargs(rng),
                 "also": rng.choice(["update", "mask", "second_container"])}
+    if name == "sibling":
+        return {"op": name, "do": rng.choice(["update", "write_read", "write_read"]), "az": rng.randrange(len(curves)),
+                "range": draw_range(rng, f), "kwargs": draw_kwargs(rng),
+                "path": "sim:/out/" + rng.choice(["s.csv", "sib.hv"]), "dmc": rng.choice(DISTS), "dfn": rng.choice(DISTS)}
     if name == "update_member":
         return {"op": name, "az": rng.randrange(len(curves)), "range": draw_range(rng, f),
                 "rtype": rng.choice(["tuple", "list"]), "kwargs": draw_kwargs(rng)}
@@ -308,8 +327,32 @@ def _tup(r):
     return tuple(r)
 
 
+def run_prehistory(H, ph):
+    import gc
+    f2 = CV.gen_grid(ph["grid"])
+    g = np_rng(ph["k"])
+    for _ in range(ph.get("rounds", 1)):
+        amp = 1.0 + g.random((ph["n"], len(f2))) * 3.0
+        with warnings.catch_warnings():
+            warnings.simplefilter("ignore")
+            ghosts = [H.HvsrTraditional(f2, amp), H.HvsrCurve(f2, amp[0]), H.HvsrDiffuseField(f2, amp[0]),
+                      H.HvsrAzimuthal([H.HvsrTraditional(f2, amp), H.HvsrTraditional(f2, amp[::-1].copy())], [0.0, 90.0])]
+            for r in ph["ranges"]:
+                for gh in ghosts:
+                    try:
+                        gh.update_peaks_bounded(search_range_in_hz=tuple(r))
+                        if hasattr(gh, "mean_curve_peak"):
+                            gh.mean_curve_peak(search_range_in_hz=tuple(r))
+                    except Exception:                       # noqa
+                        pass
+        del ghosts, amp
+        gc.collect()
+
+
 def build_world(world):
     H = hv()
+    if world.get("prehistory"):
+        run_prehistory(H, world["prehistory"])
     st = State()
     st.kind = world["kind"]
     st.f = CV.gen_grid(world["grid"])
@@ -327,10 +370,13 @@ def build_world(world):
             st.objs["trad"] = H.HvsrTraditional.from_hvsr_curves(
                 [H.HvsrCurve(st.f, a) for a in st.amps[0]], meta={**st.meta0, "processing_method": "traditional"})
         else:
-            st.objs["trad"] = H.HvsrTraditional(st.f, st.amps[0],
-                                                meta={**st.meta0, "processing_method": "traditional"})
+            caller_meta = {**st.meta0, "processing_method": "traditional"}
+            st.objs["trad"] = H.HvsrTraditional(st.f, st.amps[0], meta=caller_meta)
+            # the caller builds a second result (another time of day, say) from the very same station-meta dict
+            st.sibling = H.HvsrTraditional(st.f, st.amps[0][::-1].copy(), meta=caller_meta)
     if k in ("azimuthal", "multi"):
-        hs = [H.HvsrTraditional(st.f, a) for a in st.amps]
+        hs = [H.HvsrTraditional(st.f, a, meta={"processing_method": "traditional", "source of azimuth": i})
+              for i, a in enumerate(st.amps)]
         st.src_members = hs            # the caller keeps the objects it built the container from
         st.objs["az"] = H.HvsrAzimuthal(hs, st.azimuths,
                                         meta={**st.meta0, "processing_method": "azimuthal"})
@@ -665,6 +711,10 @@ def apply_op(ctx, st, op, prop):
     elif name == "write_read":
         from .hvsrobj_io import op_write_read
         op_write_read(ctx, st, op, prop, info)
+    elif name == "sibling":
+        from .hvsrobj_io import op_sibling
+        op_sibling(ctx, st, op, prop, info)
+        st.range_changed = False
     elif name == "plot":
         from .hvsrobj_plot import op_plot
         op_plot(ctx, st, op, prop, info)
@@ -1351,6 +1401,7 @@ def execute(triple, prop):
             st = build_world(triple["world"])
         ctx.event(op="build", kind=st.kind, f=sha_array(st.f), amps=[sha_array(a) for a in st.amps])
         for i, op in enumerate(triple["ops"]):
+            gc_point()
             info = apply_op(ctx, st, op, prop)
             ctx.ops_done += 1
             if st.shadow is not None and st.shadow.objs and op["op"] not in ("write_read", "plot"):
